@@ -1012,9 +1012,20 @@ void XMLScanner::scanMiscellaneous()
         {
             const XMLCh nextCh = fReaderMgr.peekNextChar();
 
-            // Watch for end of file and break out
+            // Watch for end of file and break out. A NUL character in the
+            // input is not the end of the input: it is an illegal character.
             if (!nextCh)
-                break;
+            {
+                const XMLReader* curReader = fReaderMgr.getCurrentReader();
+                if (!curReader || curReader->charsLeftInBuffer() == 0)
+                    break;
+
+                XMLCh tmpBuf[9];
+                XMLString::binToText(nextCh, tmpBuf, 8, 16, fMemoryManager);
+                emitError(XMLErrs::InvalidCharacter, tmpBuf);
+                fReaderMgr.getNextChar();
+                continue;
+            }
 
             if (nextCh == chOpenAngle)
             {
